@@ -571,6 +571,10 @@ trait CC: ColorComponent + Copy + PartialEq + Debug + Sub<Output = Self> + 'stat
     /// negative values of plain signed integer types (outside the colour range; `average_rgb` is still defined on
     /// them whenever the sums are representable); empty for every other type
     fn negatives() -> Vec<Self> { Vec::new() }
+    /// (second audit) integer types: 0..3, all powers of two and their neighbours, MAX - 2^k, MIN, -2^k ...; empty for floats
+    fn special_values() -> Vec<Self> { Vec::new() }
+    /// the special values on which `full - c` is defined (plain signed integers: the non-negative ones)
+    fn special_values_invertible() -> Vec<Self> { Vec::new() }
 }
 /// types on which `average_rgb` can be called at all (`From<u8>` exists)
 trait Avg: CC + Add<Output = Self> + Div<Output = Self> + From<u8> {
@@ -605,6 +609,18 @@ macro_rules! int_alphabets { ($t:ty, $wrap_signed:expr) => {
         let mut v: Vec<$t> = vec![z.wrapping_sub(1), z.wrapping_sub(2), z.wrapping_sub(4), z.wrapping_sub(5), z.wrapping_sub(7), min / 3, min / 3 + 1, min / 2, min + 1, min];
         v.sort(); v.dedup();
         v.into_iter().map(Self::mk).collect()
+    }
+    fn special_values() -> Vec<Self> {
+        let bits = 8 * std::mem::size_of::<$t>() as u32;
+        let (min, max) = (<$t>::MIN as i128, <$t>::MAX as i128);
+        let mut v: Vec<i128> = vec![0, 1, 2, 3, max, max - 1, max - 2, max / 2, max / 2 + 1, max / 2 - 1, max / 3, min, min + 1, min / 2, -1, -2, -3];
+        for k in 1..bits { let p = 1i128 << k; v.extend([p - 1, p, p + 1, -p, -p - 1, -p + 1, max - p, max - p + 1]); }
+        v.retain(|x| *x >= min && *x <= max); v.sort(); v.dedup();
+        v.into_iter().map(|x| Self::mk(x as $t)).collect()
+    }
+    fn special_values_invertible() -> Vec<Self> {
+        let all = Self::special_values();
+        if $wrap_signed { all } else { all.into_iter().filter(|v| v.in_colour_range()).collect() }
     }
 } }
 trait Mk<R> { fn mk(r: R) -> Self; }
@@ -1326,6 +1342,669 @@ fn units_concrete<T: num_traits::Zero + num_traits::One + Neg<Output = T> + Copy
     }
 }
 
+// =================================================================================================
+// 11. (second audit) equality patterns: routing functions on REPEATED and special elements
+// =================================================================================================
+/// The routing sections above run every function on pairwise DISTINCT opaque symbols.  That decides an
+/// `impl<T>` without bounds, but a function that can compare elements (`T: PartialEq`, possibly added together
+/// with a "fast path") sees the same thing on every such input: all comparisons false.  A shortcut keyed on EQUAL
+/// operands or lanes -- identical vectors, a palindromic vector, a gray colour, a uniform vector, a lane equal to
+/// zero / one / full -- is never entered.  A function that may compare elements for equality and test them
+/// against the constants is determined by its behaviour on every EQUALITY PATTERN of its element positions: every
+/// set partition of the positions, each block being either a fresh generator or one of the constants 0, 1, 255.
+/// They are enumerated as restricted-growth strings (`pre` pre-opened classes = the constants) over the free term
+/// algebra (all operators exist, so arithmetic shows up as a structurally different term instead of a panic).
+fn rgs(n: usize, pre: usize, max_new: usize, f: &mut dyn FnMut(&[usize])) {
+    fn go(i: usize, n: usize, pre: usize, open: usize, max_new: usize, cur: &mut Vec<usize>, f: &mut dyn FnMut(&[usize])) {
+        if i == n { f(cur); return; }
+        let top = if open - pre < max_new { open + 1 } else { open };
+        for c in 0..top { cur.push(c); go(i + 1, n, pre, if c == open { open + 1 } else { open }, max_new, cur, f); cur.pop(); }
+    }
+    go(0, n, pre, pre, max_new, &mut Vec::with_capacity(n), f);
+}
+fn rgs_count(n: usize, pre: usize, max_new: usize) -> u64 { let mut c = 0u64; rgs(n, pre, max_new, &mut |_| c += 1); c }
+fn eq_terms(t: &[usize], consts: &[Term]) -> Vec<Term> { t.iter().map(|&c| if c < consts.len() { consts[c] } else { Term::var(60 + (c - consts.len()) as u32) }).collect() }
+#[derive(Default)]
+struct EqStat { n: u64, nt: u64, distinct: u64, some_equal: u64, all_equal: u64, with_const: u64 }
+impl EqStat {
+    fn count(&mut self, t: &[usize], pre: usize) -> bool {
+        let mut d: Vec<usize> = t.to_vec(); d.sort(); d.dedup();
+        let has_c = t.iter().any(|&c| c < pre);
+        self.n += 1;
+        if has_c { self.with_const += 1; }
+        if d.len() == t.len() && !has_c { self.distinct += 1; }
+        if d.len() < t.len() { self.some_equal += 1; }
+        if d.len() == 1 && t.len() > 1 { self.all_equal += 1; }
+        let nt = has_c || d.len() < t.len();
+        if nt { self.nt += 1; }
+        nt
+    }
+    fn flush(&self, s: &Section) {
+        for (k, v) in [("all-distinct", self.distinct), ("some-positions-equal", self.some_equal), ("all-positions-equal", self.all_equal), ("contains-constant", self.with_const)] { if v > 0 { s.class_n(k, v); } }
+    }
+}
+/// run `f` on every equality pattern of `n` positions; `want` is the plain routing; both sides modulo the neutral-element laws
+fn eq_run(s: &Section, site: &str, n: usize, consts: &[Term], max_new: usize, extra: &Value, f: &dyn Fn(&[Term]) -> Vec<Term>, want: &dyn Fn(&[Term]) -> Vec<Term>) {
+    let site = format!("{} on equality patterns", site);
+    let mut st = EqStat::default();
+    rgs(n, consts.len(), max_new, &mut |t| {
+        let e = eq_terms(t, consts);
+        let nt = st.count(t, consts.len());
+        let inp = || json!({"elements": jd(&e), "with": extra});
+        let got = s.call(&site, inp, || f(&e).into_iter().map(simp).collect::<Vec<Term>>());
+        let w: Vec<Term> = want(&e).into_iter().map(simp).collect();
+        let mut d = t.to_vec(); d.sort(); d.dedup();
+        if got.is_none() { s.violation_w(&site, "no-result", json!({"input": inp()}), d.len() as u64); }
+        chk(s, &site, "wrong-routing-on-equal-or-special-elements", &inp, got, &w, nt, d.len() as u64);
+        if s.wants_sample() && nt && n == 4 && d.len() == 2 && t[0] == t[3] { s.sample(json!({"call": site, "elements": jd(&e), "must_be": jd(&w)})); }
+    });
+    st.flush(s);
+}
+fn route_row(site: &str, src: &[Term], scalar: Option<Term>) -> Vec<Term> {
+    let r = FROM_TABLE.iter().find(|r| format!("From<{}> for {}", r.src, r.dst) == site).unwrap_or_else(|| panic!("conversion {} is not in FROM_TABLE", site));
+    assert_eq!(src.len(), r.nsrc);
+    let mut out: Vec<Term> = src.iter().copied().take(r.ndst).collect();
+    while out.len() < r.ndst { out.push(match r.pad { Pad::Zero => Term::cst(0), Pad::Scalar => scalar.expect("scalar"), Pad::FullAlpha => Term::cst(255), Pad::Keep => panic!("row grows without a padding rule") }); }
+    out
+}
+macro_rules! tconv {
+    ($s:expr, $c:expr, $n_used:expr, $Dst:ident ($($df:ident)+) <- ($Src:ident ($($sf:ident)+), T)) => {{
+        let site = concat!("From<(", stringify!($Src), ", T)> for ", stringify!($Dst));
+        let n = [$(stringify!($sf)),+].len();
+        $n_used += 1;
+        eq_run($s, site, n + 1, $c, n + 1, &json!(null),
+            &|e: &[Term]| { let mut k = 0usize; let src = $Src::<Term> { $($sf: { k += 1; e[k - 1] }),+ }; let d: $Dst<Term> = <$Dst<Term> as From<($Src<Term>, Term)>>::from((src, e[n])); vec![$(d.$df),+] },
+            &|e: &[Term]| route_row(site, &e[..n], Some(e[n])));
+    }};
+    ($s:expr, $c:expr, $n_used:expr, $Dst:ident ($($df:ident)+) <- $Src:ident ($($sf:ident)+)) => {{
+        let site = concat!("From<", stringify!($Src), "> for ", stringify!($Dst));
+        let n = [$(stringify!($sf)),+].len();
+        $n_used += 1;
+        eq_run($s, site, n, $c, n, &json!(null),
+            &|e: &[Term]| { let mut k = 0usize; let src = $Src::<Term> { $($sf: { k += 1; e[k - 1] }),+ }; let d: $Dst<Term> = <$Dst<Term> as From<$Src<Term>>>::from(src); vec![$(d.$df),+] },
+            &|e: &[Term]| route_row(site, e, None));
+    }};
+}
+macro_rules! tshuffle { ($s:expr, $c:expr, $V:ident ($x:ident $y:ident $z:ident $w:ident)) => {{
+    let s: &Section = $s;
+    let vn = stringify!($V);
+    let mk = |e: &[Term]| $V { $x: e[0], $y: e[1], $z: e[2], $w: e[3] };
+    let dec = |v: $V<Term>| vec![v.$x, v.$y, v.$z, v.$w];
+    // the general shuffle: all 256 masks x every equality pattern of the 8 (4) lanes; constants in the thorough tier
+    let none: [Term; 0] = [];
+    let cs: &[Term] = if s.thorough() { $c } else { &none };
+    for m in 0..256usize {
+        let q = [m & 3, (m >> 2) & 3, (m >> 4) & 3, (m >> 6) & 3];
+        let mask = ShuffleMask4::new(q[0], q[1], q[2], q[3]);
+        eq_run(s, &format!("{}::shuffle_lo_hi", vn), 8, cs, 8, &json!({"mask": q}), &|e| dec($V::shuffle_lo_hi(mk(&e[..4]), mk(&e[4..]), mask)), &|e| vec![e[q[0]], e[q[1]], e[4 + q[2]], e[4 + q[3]]]);
+        eq_run(s, &format!("{}::shuffled", vn), 4, $c, 4, &json!({"mask": q}), &|e| dec(mk(e).shuffled((q[0], q[1], q[2], q[3]))), &|e| vec![e[q[0]], e[q[1]], e[q[2]], e[q[3]]]);
+    }
+    // the fixed helpers: every equality pattern incl. the constants (two-operand ones: identical operands are the pattern 0123 0123;
+    // quick tier: the 8-lane patterns with the constant 0 only -- 21147 instead of 372939 per helper)
+    let c0 = [Term::cst(0)];
+    let cs8: &[Term] = if s.thorough() { $c } else { &c0 };
+    eq_run(s, &format!("{}::interleave_0011", vn), 8, cs8, 8, &json!(null), &|e| dec($V::interleave_0011(mk(&e[..4]), mk(&e[4..]))), &|e| vec![e[0], e[4], e[1], e[5]]);
+    eq_run(s, &format!("{}::interleave_2233", vn), 8, cs8, 8, &json!(null), &|e| dec($V::interleave_2233(mk(&e[..4]), mk(&e[4..]))), &|e| vec![e[2], e[6], e[3], e[7]]);
+    eq_run(s, &format!("{}::shuffle_lo_hi_0101", vn), 8, cs8, 8, &json!(null), &|e| dec($V::shuffle_lo_hi_0101(mk(&e[..4]), mk(&e[4..]))), &|e| vec![e[0], e[1], e[4], e[5]]);
+    eq_run(s, &format!("{}::shuffle_hi_lo_2323", vn), 8, cs8, 8, &json!(null), &|e| dec($V::shuffle_hi_lo_2323(mk(&e[..4]), mk(&e[4..]))), &|e| vec![e[6], e[7], e[2], e[3]]);
+    eq_run(s, &format!("{}::shuffled_0101", vn), 4, $c, 4, &json!(null), &|e| dec(mk(e).shuffled_0101()), &|e| vec![e[0], e[1], e[0], e[1]]);
+    eq_run(s, &format!("{}::shuffled_2323", vn), 4, $c, 4, &json!(null), &|e| dec(mk(e).shuffled_2323()), &|e| vec![e[2], e[3], e[2], e[3]]);
+    eq_run(s, &format!("{}::shuffled_0022", vn), 4, $c, 4, &json!(null), &|e| dec(mk(e).shuffled_0022()), &|e| vec![e[0], e[0], e[2], e[2]]);
+    eq_run(s, &format!("{}::shuffled_1133", vn), 4, $c, 4, &json!(null), &|e| dec(mk(e).shuffled_1133()), &|e| vec![e[1], e[1], e[3], e[3]]);
+}}}
+macro_rules! tmat { ($s:expr, $c:expr, $max_new:expr, $lay:ident, $ls:expr, $Dst:ident $nd:literal <- $Src:ident $ns:literal) => {{
+    let site = format!("From<{}> for {} ({}-major)", stringify!($Src), stringify!($Dst), $ls);
+    eq_run($s, &site, $ns * $ns, $c, $max_new, &json!(null),
+        &|e: &[Term]| { let mut a = [[Term::cst(0); $ns]; $ns]; for i in 0..$ns { for j in 0..$ns { a[i][j] = e[i * $ns + j]; } }
+            let d: $lay::$Dst<Term> = <$lay::$Dst<Term> as From<$lay::$Src<Term>>>::from(<$lay::$Src<Term> as MatIO<Term, $ns>>::build(&a));
+            <$lay::$Dst<Term> as MatIO<Term, $nd>>::decode(&d).iter().flat_map(|r| r.iter().copied()).collect() },
+        &|e: &[Term]| { let mut w = Vec::new(); for i in 0..$nd { for j in 0..$nd { w.push(if i < $ns && j < $ns { e[i * $ns + j] } else if i == j { Term::cst(1) } else { Term::cst(0) }); } } w });
+}}}
+/// shrinking conversions of a Mat4 whose border (last row / last column) holds the special patterns of affine and
+/// embedded matrices; the upper-left block keeps its own generators
+macro_rules! tmat_border { ($s:expr, $lay:ident, $ls:expr, $Dst:ident $nd:literal) => {{
+    let s: &Section = $s;
+    let site = format!("From<Mat4> for {} ({}-major) on special borders", stringify!($Dst), $ls);
+    let (z, o, g) = (Term::cst(0), Term::cst(1), Term::var(59));
+    // every border entry of rows/columns >= nd over {own generator, shared generator, 0, 1} would be 4^7 / 4^12; the named
+    // patterns below are the ones a shortcut can be keyed on; the thorough tier enumerates {own, 0, 1}^border completely
+    let border: Vec<(usize, usize)> = (0..4).flat_map(|i| (0..4).map(move |j| (i, j))).filter(|&(i, j)| i >= $nd || j >= $nd).collect();
+    let own = |i: usize, j: usize| Term::var(100 + (4 * i + j) as u32);
+    let mut pats: Vec<(String, Vec<Term>)> = Vec::new();
+    let mkp = |f: &dyn Fn(usize, usize) -> Term| -> Vec<Term> { border.iter().map(|&(i, j)| f(i, j)).collect() };
+    pats.push(("identity-padding".into(), mkp(&|i, j| if i == j { o } else { z })));
+    pats.push(("affine last row (0,..,0,1), own last column".into(), mkp(&|i, j| if i == 3 { if j == 3 { o } else { z } } else { own(i, j) })));
+    pats.push(("affine last column (0,..,0,1), own last row".into(), mkp(&|i, j| if j == 3 { if i == 3 { o } else { z } } else { own(i, j) })));
+    pats.push(("zero border".into(), mkp(&|_, _| z)));
+    pats.push(("all-ones border".into(), mkp(&|_, _| o)));
+    pats.push(("uniform border (one shared generator)".into(), mkp(&|_, _| g)));
+    pats.push(("corner 0, rest own".into(), mkp(&|i, j| if i == 3 && j == 3 { z } else { own(i, j) })));
+    pats.push(("corner 1, rest own".into(), mkp(&|i, j| if i == 3 && j == 3 { o } else { own(i, j) })));
+    pats.push(("zero border, corner own".into(), mkp(&|i, j| if i == 3 && j == 3 { own(i, j) } else { z })));
+    if s.thorough() { let ch = [0usize, 1, 2]; tuples(&ch, border.len().min(9), |t| { pats.push(("product".into(), border.iter().enumerate().map(|(k, &(i, j))| match t.get(k).copied().unwrap_or(0) { 1 => z, 2 => o, _ => own(i, j) }).collect())); }); }
+    for (name, p) in pats.iter() {
+        let mut a = [[z; 4]; 4];
+        for i in 0..4 { for j in 0..4 { a[i][j] = own(i, j); } }
+        for (k, &(i, j)) in border.iter().enumerate() { a[i][j] = p[k]; }
+        let inp = || json!({"pattern": name, "src": jd(&a)});
+        let got = s.call(&site, inp, || { let d: $lay::$Dst<Term> = <$lay::$Dst<Term> as From<$lay::Mat4<Term>>>::from(<$lay::Mat4<Term> as MatIO<Term, 4>>::build(&a)); let mut o = <$lay::$Dst<Term> as MatIO<Term, $nd>>::decode(&d); for r in o.iter_mut() { for x in r.iter_mut() { *x = simp(*x); } } o });
+        let mut want = [[z; $nd]; $nd];
+        for i in 0..$nd { for j in 0..$nd { want[i][j] = a[i][j]; } }
+        s.class("matrix-special-border");
+        if got.is_none() { s.violation(&site, "no-result", json!({"input": inp()})); }
+        chk(s, &site, "wrong-routing-on-equal-or-special-elements", &inp, got, &want, true, 0);
+    }
+}}}
+fn sec_equal_patterns(s: &Section) {
+    s.require_classes(&["all-distinct", "some-positions-equal", "all-positions-equal", "contains-constant", "matrix-special-border"]);
+    let (z, o, fu) = (Term::cst(0), Term::cst(1), Term::cst(255));
+    let cs_arr = [z, o, fu];
+    let cs: &[Term] = &cs_arr;
+    let nul = json!(null);
+    let t2 = |e: &[Term]| Vec2 { x: e[0], y: e[1] };
+    let t3 = |e: &[Term]| Vec3 { x: e[0], y: e[1], z: e[2] };
+    let t4 = |e: &[Term]| Vec4 { x: e[0], y: e[1], z: e[2], w: e[3] };
+    let c3 = |e: &[Term]| Rgb { r: e[0], g: e[1], b: e[2] };
+    let c4 = |e: &[Term]| Rgba { r: e[0], g: e[1], b: e[2], a: e[3] };
+    // ---- the 24 From rows (every one exactly once)
+    let mut rows = 0usize;
+    tconv!(s, cs, rows, Vec2 (x y) <- Vec3 (x y z));
+    tconv!(s, cs, rows, Vec2 (x y) <- Vec4 (x y z w));
+    tconv!(s, cs, rows, Vec2 (x y) <- Extent2 (w h));
+    tconv!(s, cs, rows, Vec3 (x y z) <- Vec2 (x y));
+    tconv!(s, cs, rows, Vec3 (x y z) <- (Vec2 (x y), T));
+    tconv!(s, cs, rows, Vec3 (x y z) <- Vec4 (x y z w));
+    tconv!(s, cs, rows, Vec3 (x y z) <- Extent3 (w h d));
+    tconv!(s, cs, rows, Vec3 (x y z) <- Rgb (r g b));
+    tconv!(s, cs, rows, Vec3 (x y z) <- Uvw (u v w));
+    tconv!(s, cs, rows, Vec4 (x y z w) <- Vec2 (x y));
+    tconv!(s, cs, rows, Vec4 (x y z w) <- Vec3 (x y z));
+    tconv!(s, cs, rows, Vec4 (x y z w) <- (Vec3 (x y z), T));
+    tconv!(s, cs, rows, Vec4 (x y z w) <- Rgba (r g b a));
+    tconv!(s, cs, rows, Extent2 (w h) <- Vec2 (x y));
+    tconv!(s, cs, rows, Extent3 (w h d) <- Vec3 (x y z));
+    tconv!(s, cs, rows, Extent3 (w h d) <- (Extent2 (w h), T));
+    tconv!(s, cs, rows, Rgb (r g b) <- Vec3 (x y z));
+    tconv!(s, cs, rows, Rgb (r g b) <- Rgba (r g b a));
+    tconv!(s, cs, rows, Rgba (r g b a) <- Vec4 (x y z w));
+    tconv!(s, cs, rows, Rgba (r g b a) <- Rgb (r g b));
+    tconv!(s, cs, rows, Rgba (r g b a) <- (Rgb (r g b), T));
+    tconv!(s, cs, rows, Uv (u v) <- Vec2 (x y));
+    tconv!(s, cs, rows, Uvw (u v w) <- Vec3 (x y z));
+    tconv!(s, cs, rows, Uvw (u v w) <- (Uv (u v), T));
+    if rows != FROM_TABLE.len() { s.rep.machinery_error(format!("sec_equal_patterns: {} conversion rows run, FROM_TABLE has {}", rows, FROM_TABLE.len())); }
+    // ---- setters (self positions, then the new value) and swizzles
+    let run = |site: &str, n: usize, f: &dyn Fn(&[Term]) -> Vec<Term>, want: &dyn Fn(&[Term]) -> Vec<Term>| eq_run(s, site, n, cs, n, &nul, f, want);
+    run("Vec2::with_x", 3, &|e| dv2(&t2(e).with_x(e[2])).to_vec(), &|e| vec![e[2], e[1]]);
+    run("Vec2::with_y", 3, &|e| dv2(&t2(e).with_y(e[2])).to_vec(), &|e| vec![e[0], e[2]]);
+    run("Vec2::with_z", 3, &|e| dv3(&t2(e).with_z(e[2])).to_vec(), &|e| vec![e[0], e[1], e[2]]);
+    run("Vec2::with_w", 3, &|e| dv4(&t2(e).with_w(e[2])).to_vec(), &|e| vec![e[0], e[1], z, e[2]]);
+    run("Vec3::with_x", 4, &|e| dv3(&t3(e).with_x(e[3])).to_vec(), &|e| vec![e[3], e[1], e[2]]);
+    run("Vec3::with_y", 4, &|e| dv3(&t3(e).with_y(e[3])).to_vec(), &|e| vec![e[0], e[3], e[2]]);
+    run("Vec3::with_z", 4, &|e| dv3(&t3(e).with_z(e[3])).to_vec(), &|e| vec![e[0], e[1], e[3]]);
+    run("Vec3::with_w", 4, &|e| dv4(&t3(e).with_w(e[3])).to_vec(), &|e| vec![e[0], e[1], e[2], e[3]]);
+    run("Vec4::with_x", 5, &|e| dv4(&t4(e).with_x(e[4])).to_vec(), &|e| vec![e[4], e[1], e[2], e[3]]);
+    run("Vec4::with_y", 5, &|e| dv4(&t4(e).with_y(e[4])).to_vec(), &|e| vec![e[0], e[4], e[2], e[3]]);
+    run("Vec4::with_z", 5, &|e| dv4(&t4(e).with_z(e[4])).to_vec(), &|e| vec![e[0], e[1], e[4], e[3]]);
+    run("Vec4::with_w", 5, &|e| dv4(&t4(e).with_w(e[4])).to_vec(), &|e| vec![e[0], e[1], e[2], e[4]]);
+    run("Vec2::yx", 2, &|e| dv2(&t2(e).yx()).to_vec(), &|e| vec![e[1], e[0]]);
+    run("Vec3::zyx", 3, &|e| dv3(&t3(e).zyx()).to_vec(), &|e| vec![e[2], e[1], e[0]]);
+    run("Vec4::wxyz", 4, &|e| dv4(&t4(e).wxyz()).to_vec(), &|e| vec![e[3], e[0], e[1], e[2]]);
+    run("Vec4::wzyx", 4, &|e| dv4(&t4(e).wzyx()).to_vec(), &|e| vec![e[3], e[2], e[1], e[0]]);
+    run("Vec4::zyxw", 4, &|e| dv4(&t4(e).zyxw()).to_vec(), &|e| vec![e[2], e[1], e[0], e[3]]);
+    run("Vec3::xy", 3, &|e| dv2(&t3(e).xy()).to_vec(), &|e| vec![e[0], e[1]]);
+    run("Vec4::xy", 4, &|e| dv2(&t4(e).xy()).to_vec(), &|e| vec![e[0], e[1]]);
+    run("Vec4::xyz", 4, &|e| dv3(&t4(e).xyz()).to_vec(), &|e| vec![e[0], e[1], e[2]]);
+    run("Rgba::rgb", 4, &|e| drgb(c4(e).rgb()).to_vec(), &|e| vec![e[0], e[1], e[2]]);
+    // ---- homogeneous constructors (the sec_observable runs give every position its OWN generator: no two equal generators)
+    run("Vec4::new_point", 3, &|e| dv4(&Vec4::new_point(e[0], e[1], e[2])).to_vec(), &|e| vec![e[0], e[1], e[2], o]);
+    run("Vec4::new_direction", 3, &|e| dv4(&Vec4::new_direction(e[0], e[1], e[2])).to_vec(), &|e| vec![e[0], e[1], e[2], z]);
+    run("Vec4::from_point(Vec3)", 3, &|e| dv4(&Vec4::from_point(t3(e))).to_vec(), &|e| vec![e[0], e[1], e[2], o]);
+    run("Vec4::from_direction(Vec3)", 3, &|e| dv4(&Vec4::from_direction(t3(e))).to_vec(), &|e| vec![e[0], e[1], e[2], z]);
+    run("Vec4::from_point(Vec4)", 4, &|e| dv4(&Vec4::from_point(t4(e))).to_vec(), &|e| vec![e[0], e[1], e[2], o]);
+    run("Vec4::from_direction(Vec4)", 4, &|e| dv4(&Vec4::from_direction(t4(e))).to_vec(), &|e| vec![e[0], e[1], e[2], z]);
+    run("Vec4::from_point(Vec2)", 2, &|e| dv4(&Vec4::from_point(t2(e))).to_vec(), &|e| vec![e[0], e[1], z, o]);
+    run("Vec4::from_direction(Vec2)", 2, &|e| dv4(&Vec4::from_direction(t2(e))).to_vec(), &|e| vec![e[0], e[1], z, z]);
+    run("Vec3::new_point_2d", 2, &|e| dv3(&Vec3::new_point_2d(e[0], e[1])).to_vec(), &|e| vec![e[0], e[1], o]);
+    run("Vec3::new_direction_2d", 2, &|e| dv3(&Vec3::new_direction_2d(e[0], e[1])).to_vec(), &|e| vec![e[0], e[1], z]);
+    run("Vec3::from_point_2d(Vec2)", 2, &|e| dv3(&Vec3::from_point_2d(t2(e))).to_vec(), &|e| vec![e[0], e[1], o]);
+    run("Vec3::from_direction_2d(Vec2)", 2, &|e| dv3(&Vec3::from_direction_2d(t2(e))).to_vec(), &|e| vec![e[0], e[1], z]);
+    run("Vec3::from_point_2d(Vec3)", 3, &|e| dv3(&Vec3::from_point_2d(t3(e))).to_vec(), &|e| vec![e[0], e[1], o]);
+    run("Vec3::from_direction_2d(Vec3)", 3, &|e| dv3(&Vec3::from_direction_2d(t3(e))).to_vec(), &|e| vec![e[0], e[1], z]);
+    run("Vec3::from_point_2d(Vec4)", 4, &|e| dv3(&Vec3::from_point_2d(t4(e))).to_vec(), &|e| vec![e[0], e[1], o]);
+    run("Vec3::from_direction_2d(Vec4)", 4, &|e| dv3(&Vec3::from_direction_2d(t4(e))).to_vec(), &|e| vec![e[0], e[1], z]);
+    // ---- colour constructors, reorderings, arithmetic helpers (structure)
+    run("Rgba::new_opaque", 3, &|e| drgba(Rgba::new_opaque(e[0], e[1], e[2])).to_vec(), &|e| vec![e[0], e[1], e[2], fu]);
+    run("Rgba::new_transparent", 3, &|e| drgba(Rgba::new_transparent(e[0], e[1], e[2])).to_vec(), &|e| vec![e[0], e[1], e[2], z]);
+    run("Rgba::from_opaque(Rgb)", 3, &|e| drgba(Rgba::from_opaque(c3(e))).to_vec(), &|e| vec![e[0], e[1], e[2], fu]);
+    run("Rgba::from_transparent(Rgb)", 3, &|e| drgba(Rgba::from_transparent(c3(e))).to_vec(), &|e| vec![e[0], e[1], e[2], z]);
+    run("Rgba::from_opaque(Rgba)", 4, &|e| drgba(Rgba::from_opaque(c4(e))).to_vec(), &|e| vec![e[0], e[1], e[2], fu]);
+    run("Rgba::from_transparent(Rgba)", 4, &|e| drgba(Rgba::from_transparent(c4(e))).to_vec(), &|e| vec![e[0], e[1], e[2], z]);
+    run("Rgba::from_translucent(Rgb)", 4, &|e| drgba(Rgba::from_translucent(c3(e), e[3])).to_vec(), &|e| vec![e[0], e[1], e[2], e[3]]);
+    run("Rgba::from_translucent(Rgba)", 5, &|e| drgba(Rgba::from_translucent(c4(e), e[4])).to_vec(), &|e| vec![e[0], e[1], e[2], e[4]]);
+    run("Rgba::shuffled_argb", 4, &|e| drgba(c4(e).shuffled_argb()).to_vec(), &|e| vec![e[3], e[0], e[1], e[2]]);
+    run("Rgba::shuffled_bgra", 4, &|e| drgba(c4(e).shuffled_bgra()).to_vec(), &|e| vec![e[2], e[1], e[0], e[3]]);
+    run("Rgb::shuffled_bgr", 3, &|e| drgb(c3(e).shuffled_bgr()).to_vec(), &|e| vec![e[2], e[1], e[0]]);
+    let sub = |c: Term| Term::bin("sub", fu, c);
+    run("Rgba::inverted_rgb (term structure)", 4, &|e| drgba(c4(e).inverted_rgb()).to_vec(), &|e| vec![sub(e[0]), sub(e[1]), sub(e[2]), e[3]]);
+    run("Rgb::inverted_rgb (term structure)", 3, &|e| drgb(c3(e).inverted_rgb()).to_vec(), &|e| vec![sub(e[0]), sub(e[1]), sub(e[2])]);
+    run("Rgba::inverted_rgb twice (term structure)", 4, &|e| drgba(c4(e).inverted_rgb().inverted_rgb()).to_vec(), &|e| vec![sub(sub(e[0])), sub(sub(e[1])), sub(sub(e[2])), e[3]]);
+    // average: (r+g+b)/3 as a multiset of exactly the three channels under `add`, over the constant 3 (no simp: structural)
+    let avg_shape = |t: Term| -> Vec<Term> { match t.node() { Node::Bin("div", num, den) => { let mut v = num.ac_leaves("add"); v.push(den); v } _ => vec![t] } };
+    let avg_want = |e: &[Term]| -> Vec<Term> { let mut v = vec![e[0], e[1], e[2]]; v.sort(); v.push(Term::cst(3)); v };
+    {
+        let mut st = EqStat::default();
+        rgs(4, cs.len(), 4, &mut |t| {
+            let e = eq_terms(t, cs); let nt = st.count(t, cs.len());
+            let inp = || json!({"elements": jd(&e)});
+            chk(s, "Rgba::average_rgb (term structure) on equality patterns", "wrong-routing-on-equal-or-special-elements", &inp, s.call("Rgba::average_rgb", inp, || avg_shape(c4(&e).average_rgb())), &avg_want(&e), nt, 0);
+            if t[3] == 0 { chk(s, "Rgb::average_rgb (term structure) on equality patterns", "wrong-routing-on-equal-or-special-elements", &inp, s.call("Rgb::average_rgb", inp, || avg_shape(c3(&e).average_rgb())), &avg_want(&e), nt, 0); }
+        });
+        st.flush(s);
+    }
+    // ---- shuffles
+    tshuffle!(s, cs, Vec4 (x y z w));
+    tshuffle!(s, cs, Rgba (r g b a));
+    // ---- matrix size conversions, both layouts: growing (constants 0, 1, 255 for Mat2; Mat3: all partitions of the 9 entries,
+    //      thorough: with the constants 0 and 1), shrinking (Mat3: all partitions; Mat4: every pattern over two generators)
+    let c01 = [z, o];
+    let none: [Term; 0] = [];
+    let c3g: &[Term] = if s.thorough() { &c01 } else { &none };
+    let g3 = if s.thorough() { 3 } else { 9 };
+    tmat!(s, cs, 4, rm, "row", Mat3 3 <- Mat2 2); tmat!(s, cs, 4, cm, "col", Mat3 3 <- Mat2 2);
+    tmat!(s, cs, 4, rm, "row", Mat4 4 <- Mat2 2); tmat!(s, cs, 4, cm, "col", Mat4 4 <- Mat2 2);
+    tmat!(s, c3g, g3, rm, "row", Mat4 4 <- Mat3 3); tmat!(s, c3g, g3, cm, "col", Mat4 4 <- Mat3 3);
+    tmat!(s, c3g, g3, rm, "row", Mat2 2 <- Mat3 3); tmat!(s, c3g, g3, cm, "col", Mat2 2 <- Mat3 3);
+    tmat!(s, &none, 2, rm, "row", Mat3 3 <- Mat4 4); tmat!(s, &none, 2, cm, "col", Mat3 3 <- Mat4 4);
+    tmat!(s, &none, 2, rm, "row", Mat2 2 <- Mat4 4); tmat!(s, &none, 2, cm, "col", Mat2 2 <- Mat4 4);
+    tmat_border!(s, rm, "row", Mat3 3); tmat_border!(s, cm, "col", Mat3 3);
+    tmat_border!(s, rm, "row", Mat2 2); tmat_border!(s, cm, "col", Mat2 2);
+    s.meta("pattern_counts", json!({"4 positions + constants {0,1,255}": rgs_count(4, 3, 4), "5 positions + constants": rgs_count(5, 3, 5), "8 positions, no constants (Bell(8))": rgs_count(8, 0, 8), "8 positions + constants": rgs_count(8, 3, 8), "9 positions, no constants (Bell(9))": rgs_count(9, 0, 9), "16 positions, two generators": rgs_count(16, 0, 2)}));
+}
+
+// =================================================================================================
+// 12. (second audit) the routing functions instantiated at machine element types
+// =================================================================================================
+/// "One run on opaque symbols decides every element type" rests on parametricity, and parametricity is broken by
+/// `mem::size_of::<T>()`, `mem::align_of`, `mem::needs_drop` (all callable without any bound): a "SIMD path" for 4-byte
+/// lanes, a byte-swap path for 1-byte channels, an in-place path for droppable elements.  `Sym` is 2 bytes, `Term` 4,
+/// `X` large, none is droppable.  Here every routing function runs on real element types of size 1, 2, 3, 4, 8, 16, 24
+/// and 32 bytes, signed / unsigned / float / wrapping / char / array / heap-owning (non-Copy) ones, on pairwise distinct
+/// lane values (floats: incl. -0.0, NaN payloads, infinities, subnormals, compared bit for bit).
+/// (`PartialEq + Default` are not needed by the check; they keep it compiling when a bound of that kind is added to a routing function)
+trait Lane: Clone + Debug + PartialEq + Default + 'static {
+    const NAME: &'static str;
+    /// pairwise distinct data for i in 0..32, none of them equal to zero, one or full
+    fn lane(i: usize) -> Self;
+    /// the same datum (bit for bit for floats)
+    fn same(&self, o: &Self) -> bool;
+}
+fn lane_i128(i: usize, max: i128) -> i128 { if i % 2 == 0 { 2 + 5 * i as i128 } else { max - 3 - 7 * i as i128 } }
+macro_rules! lane_int { ($($t:ident)+) => { $(
+    impl Lane for $t { const NAME: &'static str = stringify!($t); fn lane(i: usize) -> $t { lane_i128(i, <$t>::MAX as i128) as $t } fn same(&self, o: &Self) -> bool { self == o } }
+)+ } }
+lane_int!(u8 u16 u32 u64 usize i8 i16 i32 i64 isize);
+impl Lane for u128 { const NAME: &'static str = "u128"; fn lane(i: usize) -> u128 { if i % 2 == 0 { 2 + 5 * i as u128 } else { u128::MAX - 3 - 7 * i as u128 } } fn same(&self, o: &Self) -> bool { self == o } }
+macro_rules! lane_wrap { ($($t:ident)+) => { $(
+    impl Lane for Wrapping<$t> { const NAME: &'static str = concat!("Wrapping<", stringify!($t), ">"); fn lane(i: usize) -> Self { Wrapping(<$t as Lane>::lane(i)) } fn same(&self, o: &Self) -> bool { self == o } }
+)+ } }
+lane_wrap!(u8 u16 u32 u64 i8 i16 i32 i64);
+impl Lane for f32 {
+    const NAME: &'static str = "f32";
+    fn lane(i: usize) -> f32 { const SP: [u32; 12] = [0x4020_0000, 0x8000_0000, 0x7fc0_0001, 0x7f80_0000, 0x0000_0001, 0xc050_0000, 0x7f7f_ffff, 0xff80_0000, 0xffc1_2345, 0x0001_16c2, 0x3dcc_cccd, 0x0080_0000]; if i < 12 { f32::from_bits(SP[i]) } else { i as f32 * 1.5 + 7.25 } }
+    fn same(&self, o: &Self) -> bool { self.to_bits() == o.to_bits() }
+}
+impl Lane for f64 {
+    const NAME: &'static str = "f64";
+    fn lane(i: usize) -> f64 { const SP: [u64; 12] = [0x4004_0000_0000_0000, 0x8000_0000_0000_0000, 0x7ff8_0000_0000_0001, 0x7ff0_0000_0000_0000, 1, 0xc00a_0000_0000_0000, 0x7fef_ffff_ffff_ffff, 0xfff0_0000_0000_0000, 0xfff8_1234_5678_9abc, 0x0000_0000_0001_16c2, 0x3fb9_9999_9999_999a, 0x0010_0000_0000_0000]; if i < 12 { f64::from_bits(SP[i]) } else { i as f64 * 1.5 + 7.25 } }
+    fn same(&self, o: &Self) -> bool { self.to_bits() == o.to_bits() }
+}
+impl Lane for char { const NAME: &'static str = "char"; fn lane(i: usize) -> char { char::from_u32(if i % 2 == 0 { 0x61 + i as u32 } else { 0x1F600 + i as u32 }).unwrap() } fn same(&self, o: &Self) -> bool { self == o } }
+impl Lane for [u8; 3] { const NAME: &'static str = "[u8; 3]"; fn lane(i: usize) -> [u8; 3] { [i as u8 + 2, 200 - i as u8, 7 * i as u8 + 1] } fn same(&self, o: &Self) -> bool { self == o } }
+impl Lane for [u64; 4] { const NAME: &'static str = "[u64; 4]"; fn lane(i: usize) -> [u64; 4] { [i as u64 + 2, u64::MAX - i as u64, 7 * i as u64 + 1, 1 << (i % 60)] } fn same(&self, o: &Self) -> bool { self == o } }
+impl Lane for String { const NAME: &'static str = "String"; fn lane(i: usize) -> String { format!("lane{}", i) } fn same(&self, o: &Self) -> bool { self == o } }
+impl Lane for Box<u16> { const NAME: &'static str = "Box<u16>"; fn lane(i: usize) -> Box<u16> { Box::new(1000 + i as u16) } fn same(&self, o: &Self) -> bool { self == o } }
+/// the numeric ones: reference zero / one / full from std constants
+trait LaneNum: Lane + CC + num_traits::One { fn one_ref() -> Self; }
+macro_rules! lane_num { ($($t:ty = $one:expr;)+) => { $( impl LaneNum for $t { fn one_ref() -> Self { $one } } )+ } }
+lane_num! { u8 = 1; u16 = 1; u32 = 1; u64 = 1; i8 = 1; i16 = 1; i32 = 1; i64 = 1; f32 = 1.0; f64 = 1.0;
+    Wrapping<u8> = Wrapping(1); Wrapping<u16> = Wrapping(1); Wrapping<u32> = Wrapping(1); Wrapping<u64> = Wrapping(1);
+    Wrapping<i8> = Wrapping(1); Wrapping<i16> = Wrapping(1); Wrapping<i32> = Wrapping(1); Wrapping<i64> = Wrapping(1); }
+
+fn chk_lanes<T: Lane>(s: &Section, site: &str, input: &dyn Fn() -> Value, got: Option<Vec<T>>, want: &[T]) {
+    s.eval(true);
+    match got {
+        None => s.violation(site, "no-result-on-machine-type", json!({"input": input(), "want": jd(&want)})),
+        Some(g) => if g.len() != want.len() || !g.iter().zip(want).all(|(a, b)| a.same(b)) { s.violation(site, "wrong-routing-on-machine-type", json!({"input": input(), "got": jd(&g), "want": jd(&want), "size_of_element": std::mem::size_of::<T>(), "needs_drop": std::mem::needs_drop::<T>()})); }
+    }
+}
+use vx::vecs::VecN;
+/// one `From` row at element type T: source lanes 1..=N, appended scalar lane 20; `pads`: what must follow the kept lanes
+fn lconv<T: Lane, S: VecN<T>, D: VecN<T>>(s: &Section, src_name: &str, pads: &[T], conv: impl FnOnce(S, T) -> D) {
+    let src: Vec<T> = (1..=<S as VecN<T>>::N).map(T::lane).collect();
+    let mut want: Vec<T> = src.iter().cloned().take(<D as VecN<T>>::N - pads.len()).collect();
+    want.extend(pads.iter().cloned());
+    let site = format!("From<{}> for {} <{}>", src_name, <D as VecN<T>>::NAME, T::NAME);
+    let inp = || json!({"src": jd(&src), "scalar": jd(&T::lane(20))});
+    let got = s.call(&site, inp, || <D as VecN<T>>::into_elems(conv(<S as VecN<T>>::from_elems(src.clone()), T::lane(20))));
+    chk_lanes(s, &site, &inp, got, &want);
+}
+fn lcase<T: Lane>(s: &Section, site: &str, f: impl FnOnce() -> Vec<T>, want: Vec<T>) {
+    let site = format!("{} <{}>", site, T::NAME);
+    let inp = || json!({"lanes": "self = lane(1..), second operand = lane(5..), new value = lane(9), scalar = lane(20)"});
+    let got = s.call(&site, inp, f);
+    chk_lanes(s, &site, &inp, got, &want);
+}
+/// functions without any bound on T (work for non-Copy elements)
+fn lanes_unbounded<T: Lane>(s: &Section) {
+    s.class(&format!("type:{}", T::NAME));
+    s.class(&format!("element-size:{}", std::mem::size_of::<T>()));
+    if std::mem::needs_drop::<T>() { s.class("droppable-element"); }
+    let l = |i: usize| T::lane(i);
+    let sc = || vec![T::lane(20)];
+    // the 20 From rows without a bound (kind changes, shrinks, appended scalar)
+    lconv::<T, Vec3<T>, Vec2<T>>(s, "Vec3", &[], |v, _| Vec2::from(v));
+    lconv::<T, Vec4<T>, Vec2<T>>(s, "Vec4", &[], |v, _| Vec2::from(v));
+    lconv::<T, Extent2<T>, Vec2<T>>(s, "Extent2", &[], |v, _| Vec2::from(v));
+    lconv::<T, Vec2<T>, Vec3<T>>(s, "(Vec2, T)", &sc(), |v, w| Vec3::from((v, w)));
+    lconv::<T, Vec4<T>, Vec3<T>>(s, "Vec4", &[], |v, _| Vec3::from(v));
+    lconv::<T, Extent3<T>, Vec3<T>>(s, "Extent3", &[], |v, _| Vec3::from(v));
+    lconv::<T, Rgb<T>, Vec3<T>>(s, "Rgb", &[], |v, _| Vec3::from(v));
+    lconv::<T, Uvw<T>, Vec3<T>>(s, "Uvw", &[], |v, _| Vec3::from(v));
+    lconv::<T, Vec3<T>, Vec4<T>>(s, "(Vec3, T)", &sc(), |v, w| Vec4::from((v, w)));
+    lconv::<T, Rgba<T>, Vec4<T>>(s, "Rgba", &[], |v, _| Vec4::from(v));
+    lconv::<T, Vec2<T>, Extent2<T>>(s, "Vec2", &[], |v, _| Extent2::from(v));
+    lconv::<T, Vec3<T>, Extent3<T>>(s, "Vec3", &[], |v, _| Extent3::from(v));
+    lconv::<T, Extent2<T>, Extent3<T>>(s, "(Extent2, T)", &sc(), |v, w| Extent3::from((v, w)));
+    lconv::<T, Vec3<T>, Rgb<T>>(s, "Vec3", &[], |v, _| Rgb::from(v));
+    lconv::<T, Rgba<T>, Rgb<T>>(s, "Rgba", &[], |v, _| Rgb::from(v));
+    lconv::<T, Vec4<T>, Rgba<T>>(s, "Vec4", &[], |v, _| Rgba::from(v));
+    lconv::<T, Rgb<T>, Rgba<T>>(s, "(Rgb, T)", &sc(), |v, w| Rgba::from((v, w)));
+    lconv::<T, Vec2<T>, Uv<T>>(s, "Vec2", &[], |v, _| Uv::from(v));
+    lconv::<T, Vec3<T>, Uvw<T>>(s, "Vec3", &[], |v, _| Uvw::from(v));
+    lconv::<T, Uv<T>, Uvw<T>>(s, "(Uv, T)", &sc(), |v, w| Uvw::from((v, w)));
+    // setters (except Vec2::with_w: T: Zero), swizzles, projections
+    let a2 = || Vec2 { x: l(1), y: l(2) };
+    let a3 = || Vec3 { x: l(1), y: l(2), z: l(3) };
+    let a4 = || Vec4 { x: l(1), y: l(2), z: l(3), w: l(4) };
+    let b4 = || Vec4 { x: l(5), y: l(6), z: l(7), w: l(8) };
+    let c3 = || Rgb { r: l(1), g: l(2), b: l(3) };
+    let c4 = || Rgba { r: l(1), g: l(2), b: l(3), a: l(4) };
+    let d4 = || Rgba { r: l(5), g: l(6), b: l(7), a: l(8) };
+    lcase(s, "Vec2::with_x", || a2().with_x(l(9)).into_elems(), vec![l(9), l(2)]);
+    lcase(s, "Vec2::with_y", || a2().with_y(l(9)).into_elems(), vec![l(1), l(9)]);
+    lcase(s, "Vec2::with_z", || a2().with_z(l(9)).into_elems(), vec![l(1), l(2), l(9)]);
+    lcase(s, "Vec3::with_x", || a3().with_x(l(9)).into_elems(), vec![l(9), l(2), l(3)]);
+    lcase(s, "Vec3::with_y", || a3().with_y(l(9)).into_elems(), vec![l(1), l(9), l(3)]);
+    lcase(s, "Vec3::with_z", || a3().with_z(l(9)).into_elems(), vec![l(1), l(2), l(9)]);
+    lcase(s, "Vec3::with_w", || a3().with_w(l(9)).into_elems(), vec![l(1), l(2), l(3), l(9)]);
+    lcase(s, "Vec4::with_x", || a4().with_x(l(9)).into_elems(), vec![l(9), l(2), l(3), l(4)]);
+    lcase(s, "Vec4::with_y", || a4().with_y(l(9)).into_elems(), vec![l(1), l(9), l(3), l(4)]);
+    lcase(s, "Vec4::with_z", || a4().with_z(l(9)).into_elems(), vec![l(1), l(2), l(9), l(4)]);
+    lcase(s, "Vec4::with_w", || a4().with_w(l(9)).into_elems(), vec![l(1), l(2), l(3), l(9)]);
+    lcase(s, "Vec2::yx", || a2().yx().into_elems(), vec![l(2), l(1)]);
+    lcase(s, "Vec3::zyx", || a3().zyx().into_elems(), vec![l(3), l(2), l(1)]);
+    lcase(s, "Vec4::wxyz", || a4().wxyz().into_elems(), vec![l(4), l(1), l(2), l(3)]);
+    lcase(s, "Vec4::wzyx", || a4().wzyx().into_elems(), vec![l(4), l(3), l(2), l(1)]);
+    lcase(s, "Vec4::zyxw", || a4().zyxw().into_elems(), vec![l(3), l(2), l(1), l(4)]);
+    lcase(s, "Vec3::xy", || a3().xy().into_elems(), vec![l(1), l(2)]);
+    lcase(s, "Vec4::xy", || a4().xy().into_elems(), vec![l(1), l(2)]);
+    lcase(s, "Vec4::xyz", || a4().xyz().into_elems(), vec![l(1), l(2), l(3)]);
+    lcase(s, "Rgba::rgb", || c4().rgb().into_elems(), vec![l(1), l(2), l(3)]);
+    // two-operand lane helpers without a Copy bound, reorderings, from_translucent (incl. through Into from other kinds)
+    lcase(s, "Vec4::interleave_0011", || Vec4::interleave_0011(a4(), b4()).into_elems(), vec![l(1), l(5), l(2), l(6)]);
+    lcase(s, "Vec4::interleave_2233", || Vec4::interleave_2233(a4(), b4()).into_elems(), vec![l(3), l(7), l(4), l(8)]);
+    lcase(s, "Vec4::shuffle_lo_hi_0101", || Vec4::shuffle_lo_hi_0101(a4(), b4()).into_elems(), vec![l(1), l(2), l(5), l(6)]);
+    lcase(s, "Vec4::shuffle_hi_lo_2323", || Vec4::shuffle_hi_lo_2323(a4(), b4()).into_elems(), vec![l(7), l(8), l(3), l(4)]);
+    lcase(s, "Rgba::interleave_0011", || Rgba::interleave_0011(c4(), d4()).into_elems(), vec![l(1), l(5), l(2), l(6)]);
+    lcase(s, "Rgba::interleave_2233", || Rgba::interleave_2233(c4(), d4()).into_elems(), vec![l(3), l(7), l(4), l(8)]);
+    lcase(s, "Rgba::shuffle_lo_hi_0101", || Rgba::shuffle_lo_hi_0101(c4(), d4()).into_elems(), vec![l(1), l(2), l(5), l(6)]);
+    lcase(s, "Rgba::shuffle_hi_lo_2323", || Rgba::shuffle_hi_lo_2323(c4(), d4()).into_elems(), vec![l(7), l(8), l(3), l(4)]);
+    lcase(s, "Rgba::shuffled_argb", || c4().shuffled_argb().into_elems(), vec![l(4), l(1), l(2), l(3)]);
+    lcase(s, "Rgba::shuffled_bgra", || c4().shuffled_bgra().into_elems(), vec![l(3), l(2), l(1), l(4)]);
+    lcase(s, "Rgb::shuffled_bgr", || c3().shuffled_bgr().into_elems(), vec![l(3), l(2), l(1)]);
+    lcase(s, "Rgba::from_translucent(Rgb)", || Rgba::from_translucent(c3(), l(20)).into_elems(), vec![l(1), l(2), l(3), l(20)]);
+    lcase(s, "Rgba::from_translucent(Rgba)", || Rgba::from_translucent(c4(), l(20)).into_elems(), vec![l(1), l(2), l(3), l(20)]);
+    lcase(s, "Rgba::from_translucent(Vec3)", || Rgba::from_translucent(a3(), l(20)).into_elems(), vec![l(1), l(2), l(3), l(20)]);
+    lcase(s, "Rgba::from_translucent((r,g,b))", || Rgba::from_translucent((l(1), l(2), l(3)), l(20)).into_elems(), vec![l(1), l(2), l(3), l(20)]);
+    lcase(s, "Rgba::from_translucent([r,g,b])", || Rgba::from_translucent([l(1), l(2), l(3)], l(20)).into_elems(), vec![l(1), l(2), l(3), l(20)]);
+}
+macro_rules! lmat { ($s:expr, $T:ty, $lay:ident, $ls:expr, $Dst:ident $nd:literal <- $Src:ident $ns:literal, $zero:expr, $one:expr) => {{
+    let mut a = [[<$T as Lane>::lane(0); $ns]; $ns];
+    for i in 0..$ns { for j in 0..$ns { a[i][j] = <$T as Lane>::lane(1 + i * $ns + j); } }
+    let site = format!("From<{}> for {} ({}-major) <{}>", stringify!($Src), stringify!($Dst), $ls, <$T as Lane>::NAME);
+    let inp = || json!({"src": jd(&a)});
+    let got = $s.call(&site, inp, || { let d: $lay::$Dst<$T> = <$lay::$Dst<$T> as From<$lay::$Src<$T>>>::from(<$lay::$Src<$T> as MatIO<$T, $ns>>::build(&a)); <$lay::$Dst<$T> as MatIO<$T, $nd>>::decode(&d).iter().flat_map(|r| r.iter().copied()).collect::<Vec<$T>>() });
+    let mut want: Vec<$T> = Vec::new();
+    for i in 0..$nd { for j in 0..$nd { want.push(if i < $ns && j < $ns { a[i][j] } else if i == j { $one } else { $zero }); } }
+    chk_lanes($s, &site, &inp, got, &want);
+}}}
+macro_rules! lshuffle { ($s:expr, $T:ty, $V:ident ($x:ident $y:ident $z:ident $w:ident)) => {{
+    let s: &Section = $s;
+    let vn = stringify!($V);
+    let lv = |k: usize| <$T as Lane>::lane(k);
+    let (lo, hi) = ($V { $x: lv(1), $y: lv(2), $z: lv(3), $w: lv(4) }, $V { $x: lv(5), $y: lv(6), $z: lv(7), $w: lv(8) });
+    let (l, h) = ([lv(1), lv(2), lv(3), lv(4)], [lv(5), lv(6), lv(7), lv(8)]);
+    let dec = |v: $V<$T>| vec![v.$x, v.$y, v.$z, v.$w];
+    for m in 0..256usize {
+        let q = [m & 3, (m >> 2) & 3, (m >> 4) & 3, (m >> 6) & 3];
+        let inp = || json!({"lo": jd(&l), "hi": jd(&h), "mask": q});
+        let site = format!("{}::shuffle_lo_hi <{}>", vn, <$T as Lane>::NAME);
+        chk_lanes(s, &site, &inp, s.call(&site, inp, || dec($V::shuffle_lo_hi(lo, hi, ShuffleMask4::new(q[0], q[1], q[2], q[3])))), &[l[q[0]], l[q[1]], h[q[2]], h[q[3]]]);
+        let site = format!("{}::shuffled <{}>", vn, <$T as Lane>::NAME);
+        chk_lanes(s, &site, &inp, s.call(&site, inp, || dec(lo.shuffled((q[0], q[1], q[2], q[3])))), &[l[q[0]], l[q[1]], l[q[2]], l[q[3]]]);
+    }
+    lcase::<$T>(s, &format!("{}::shuffled_0101", vn), || dec(lo.shuffled_0101()), vec![l[0], l[1], l[0], l[1]]);
+    lcase::<$T>(s, &format!("{}::shuffled_2323", vn), || dec(lo.shuffled_2323()), vec![l[2], l[3], l[2], l[3]]);
+    lcase::<$T>(s, &format!("{}::shuffled_0022", vn), || dec(lo.shuffled_0022()), vec![l[0], l[0], l[2], l[2]]);
+    lcase::<$T>(s, &format!("{}::shuffled_1133", vn), || dec(lo.shuffled_1133()), vec![l[1], l[1], l[3], l[3]]);
+    lcase::<$T>(s, &format!("{}::shuffled(7) single index", vn), || dec(lo.shuffled(7usize)), vec![l[3]; 4]);
+    lcase::<$T>(s, &format!("{}::shuffle_lo_hi([5, MAX, 6, 8]) out-of-range", vn), || dec($V::shuffle_lo_hi(lo, hi, [5usize, usize::MAX, 6, 8])), vec![l[1], l[3], h[2], h[0]]);
+}}}
+macro_rules! lbcast { ($s:expr, $T:ty, $($V:ident)+) => { $( {
+    let v = <$T as Lane>::lane(7);
+    lcase::<$T>($s, concat!("From<T> for ", stringify!($V)), || <$V<$T> as From<$T>>::from(v).into_elems(), vec![v; <$V<$T> as VecN<$T>>::N]);
+} )+ } }
+/// functions with a `T: Copy` bound only, and the bound-free shrinking matrix conversions (decoded through Copy helpers)
+macro_rules! lanes_copy { ($s:expr, $($T:ty),+) => { $( {
+    let s: &Section = $s;
+    lshuffle!(s, $T, Vec4 (x y z w));
+    lshuffle!(s, $T, Rgba (r g b a));
+    lbcast!(s, $T, Vec2 Vec3 Vec4 Extent2 Extent3 Rgb Rgba Uv Uvw Vec8 Vec16 Vec32 Vec64);
+    let (z, o) = (<$T as Lane>::lane(30), <$T as Lane>::lane(31)); // never used by a shrinking conversion
+    lmat!(s, $T, rm, "row", Mat3 3 <- Mat4 4, z, o); lmat!(s, $T, cm, "col", Mat3 3 <- Mat4 4, z, o);
+    lmat!(s, $T, rm, "row", Mat2 2 <- Mat3 3, z, o); lmat!(s, $T, cm, "col", Mat2 2 <- Mat3 3, z, o);
+    lmat!(s, $T, rm, "row", Mat2 2 <- Mat4 4, z, o); lmat!(s, $T, cm, "col", Mat2 2 <- Mat4 4, z, o);
+} )+ } }
+/// functions with a Zero / One / ColorComponent bound, at the 18 numeric element types
+macro_rules! lanes_numeric { ($s:expr, $($T:ty),+) => { $( {
+    let s: &Section = $s;
+    type T = $T;
+    let (z, o, fu) = (<T as CC>::zero_ref(), <T as LaneNum>::one_ref(), <T as CC>::full_ref());
+    let l = |i: usize| <T as Lane>::lane(i);
+    lconv::<T, Vec2<T>, Vec3<T>>(s, "Vec2", &[z], |v, _| Vec3::from(v));
+    lconv::<T, Vec2<T>, Vec4<T>>(s, "Vec2", &[z, z], |v, _| Vec4::from(v));
+    lconv::<T, Vec3<T>, Vec4<T>>(s, "Vec3", &[z], |v, _| Vec4::from(v));
+    lconv::<T, Rgb<T>, Rgba<T>>(s, "Rgb", &[fu], |v, _| Rgba::from(v));
+    let (a2, a3, a4) = (Vec2 { x: l(1), y: l(2) }, Vec3 { x: l(1), y: l(2), z: l(3) }, Vec4 { x: l(1), y: l(2), z: l(3), w: l(4) });
+    let (c3, c4) = (Rgb { r: l(1), g: l(2), b: l(3) }, Rgba { r: l(1), g: l(2), b: l(3), a: l(4) });
+    lcase::<T>(s, "Vec2::with_w", || dv4(&a2.with_w(l(9))).to_vec(), vec![l(1), l(2), z, l(9)]);
+    lcase::<T>(s, "Vec4::new_point", || dv4(&Vec4::new_point(l(1), l(2), l(3))).to_vec(), vec![l(1), l(2), l(3), o]);
+    lcase::<T>(s, "Vec4::new_direction", || dv4(&Vec4::new_direction(l(1), l(2), l(3))).to_vec(), vec![l(1), l(2), l(3), z]);
+    lcase::<T>(s, "Vec4::from_point(Vec3)", || dv4(&Vec4::from_point(a3)).to_vec(), vec![l(1), l(2), l(3), o]);
+    lcase::<T>(s, "Vec4::from_direction(Vec3)", || dv4(&Vec4::from_direction(a3)).to_vec(), vec![l(1), l(2), l(3), z]);
+    lcase::<T>(s, "Vec4::from_point(Vec4)", || dv4(&Vec4::from_point(a4)).to_vec(), vec![l(1), l(2), l(3), o]);
+    lcase::<T>(s, "Vec4::from_direction(Vec4)", || dv4(&Vec4::from_direction(a4)).to_vec(), vec![l(1), l(2), l(3), z]);
+    lcase::<T>(s, "Vec4::from_point(Vec2)", || dv4(&Vec4::from_point(a2)).to_vec(), vec![l(1), l(2), z, o]);
+    lcase::<T>(s, "Vec4::from_direction(Vec2)", || dv4(&Vec4::from_direction(a2)).to_vec(), vec![l(1), l(2), z, z]);
+    lcase::<T>(s, "Vec4::from_point([x,y,z])", || dv4(&Vec4::from_point([l(1), l(2), l(3)])).to_vec(), vec![l(1), l(2), l(3), o]);
+    lcase::<T>(s, "Vec4::from_direction((x,y,z))", || dv4(&Vec4::from_direction((l(1), l(2), l(3)))).to_vec(), vec![l(1), l(2), l(3), z]);
+    lcase::<T>(s, "Vec3::new_point_2d", || dv3(&Vec3::new_point_2d(l(1), l(2))).to_vec(), vec![l(1), l(2), o]);
+    lcase::<T>(s, "Vec3::new_direction_2d", || dv3(&Vec3::new_direction_2d(l(1), l(2))).to_vec(), vec![l(1), l(2), z]);
+    lcase::<T>(s, "Vec3::from_point_2d(Vec2)", || dv3(&Vec3::from_point_2d(a2)).to_vec(), vec![l(1), l(2), o]);
+    lcase::<T>(s, "Vec3::from_direction_2d(Vec2)", || dv3(&Vec3::from_direction_2d(a2)).to_vec(), vec![l(1), l(2), z]);
+    lcase::<T>(s, "Vec3::from_point_2d(Vec3)", || dv3(&Vec3::from_point_2d(a3)).to_vec(), vec![l(1), l(2), o]);
+    lcase::<T>(s, "Vec3::from_direction_2d(Vec4)", || dv3(&Vec3::from_direction_2d(a4)).to_vec(), vec![l(1), l(2), z]);
+    lcase::<T>(s, "Rgba::new_opaque", || drgba(Rgba::new_opaque(l(1), l(2), l(3))).to_vec(), vec![l(1), l(2), l(3), fu]);
+    lcase::<T>(s, "Rgba::new_transparent", || drgba(Rgba::new_transparent(l(1), l(2), l(3))).to_vec(), vec![l(1), l(2), l(3), z]);
+    lcase::<T>(s, "Rgba::from_opaque(Rgb)", || drgba(Rgba::from_opaque(c3)).to_vec(), vec![l(1), l(2), l(3), fu]);
+    lcase::<T>(s, "Rgba::from_opaque(Rgba)", || drgba(Rgba::from_opaque(c4)).to_vec(), vec![l(1), l(2), l(3), fu]);
+    lcase::<T>(s, "Rgba::from_transparent(Vec3)", || drgba(Rgba::from_transparent(a3)).to_vec(), vec![l(1), l(2), l(3), z]);
+    lcase::<T>(s, "Rgb::gray", || drgb(Rgb::gray(l(1))).to_vec(), vec![l(1); 3]);
+    lcase::<T>(s, "Rgb::grey", || drgb(Rgb::grey(l(1))).to_vec(), vec![l(1); 3]);
+    lcase::<T>(s, "Rgba::gray", || drgba(Rgba::gray(l(1))).to_vec(), vec![l(1), l(1), l(1), fu]);
+    lcase::<T>(s, "Rgba::grey", || drgba(Rgba::grey(l(1))).to_vec(), vec![l(1), l(1), l(1), fu]);
+    lmat!(s, T, rm, "row", Mat3 3 <- Mat2 2, z, o); lmat!(s, T, cm, "col", Mat3 3 <- Mat2 2, z, o);
+    lmat!(s, T, rm, "row", Mat4 4 <- Mat2 2, z, o); lmat!(s, T, cm, "col", Mat4 4 <- Mat2 2, z, o);
+    lmat!(s, T, rm, "row", Mat4 4 <- Mat3 3, z, o); lmat!(s, T, cm, "col", Mat4 4 <- Mat3 3, z, o);
+} )+ } }
+/// the 23 nullary constructors that need no negation, at every numeric element type (unsigned and Wrapping ones included,
+/// which `units_concrete` cannot reach because of its Neg bound); zero / one from std constants
+fn units_nonneg<T: LaneNum + Copy>(s: &Section) {
+    s.class(&format!("unit-constructors:{}", <T as Lane>::NAME));
+    let (z, o) = (T::zero_ref(), T::one_ref());
+    let b = |bits: &[u8]| -> Vec<T> { bits.iter().map(|&k| if k == 1 { o } else { z }).collect() };
+    type V2<T> = Vec2<T>; type V3<T> = Vec3<T>; type V4<T> = Vec4<T>;
+    lcase::<T>(s, "Vec2::unit_x", || dv2(&V2::<T>::unit_x()).to_vec(), b(&[1, 0])); lcase::<T>(s, "Vec2::unit_y", || dv2(&V2::<T>::unit_y()).to_vec(), b(&[0, 1]));
+    lcase::<T>(s, "Vec2::right", || dv2(&V2::<T>::right()).to_vec(), b(&[1, 0])); lcase::<T>(s, "Vec2::up", || dv2(&V2::<T>::up()).to_vec(), b(&[0, 1]));
+    lcase::<T>(s, "Vec3::unit_x", || dv3(&V3::<T>::unit_x()).to_vec(), b(&[1, 0, 0])); lcase::<T>(s, "Vec3::unit_y", || dv3(&V3::<T>::unit_y()).to_vec(), b(&[0, 1, 0])); lcase::<T>(s, "Vec3::unit_z", || dv3(&V3::<T>::unit_z()).to_vec(), b(&[0, 0, 1]));
+    lcase::<T>(s, "Vec3::right", || dv3(&V3::<T>::right()).to_vec(), b(&[1, 0, 0])); lcase::<T>(s, "Vec3::up", || dv3(&V3::<T>::up()).to_vec(), b(&[0, 1, 0]));
+    lcase::<T>(s, "Vec3::forward_lh", || dv3(&V3::<T>::forward_lh()).to_vec(), b(&[0, 0, 1])); lcase::<T>(s, "Vec3::back_rh", || dv3(&V3::<T>::back_rh()).to_vec(), b(&[0, 0, 1]));
+    lcase::<T>(s, "Vec4::unit_x", || dv4(&V4::<T>::unit_x()).to_vec(), b(&[1, 0, 0, 0])); lcase::<T>(s, "Vec4::unit_y", || dv4(&V4::<T>::unit_y()).to_vec(), b(&[0, 1, 0, 0]));
+    lcase::<T>(s, "Vec4::unit_z", || dv4(&V4::<T>::unit_z()).to_vec(), b(&[0, 0, 1, 0])); lcase::<T>(s, "Vec4::unit_w", || dv4(&V4::<T>::unit_w()).to_vec(), b(&[0, 0, 0, 1]));
+    lcase::<T>(s, "Vec4::right", || dv4(&V4::<T>::right()).to_vec(), b(&[1, 0, 0, 0])); lcase::<T>(s, "Vec4::up", || dv4(&V4::<T>::up()).to_vec(), b(&[0, 1, 0, 0]));
+    lcase::<T>(s, "Vec4::forward_lh", || dv4(&V4::<T>::forward_lh()).to_vec(), b(&[0, 0, 1, 0])); lcase::<T>(s, "Vec4::back_rh", || dv4(&V4::<T>::back_rh()).to_vec(), b(&[0, 0, 1, 0]));
+    lcase::<T>(s, "Vec4::unit_x_point", || dv4(&V4::<T>::unit_x_point()).to_vec(), b(&[1, 0, 0, 1])); lcase::<T>(s, "Vec4::unit_y_point", || dv4(&V4::<T>::unit_y_point()).to_vec(), b(&[0, 1, 0, 1]));
+    lcase::<T>(s, "Vec4::unit_z_point", || dv4(&V4::<T>::unit_z_point()).to_vec(), b(&[0, 0, 1, 1]));
+    lcase::<T>(s, "Vec4::right_point", || dv4(&V4::<T>::right_point()).to_vec(), b(&[1, 0, 0, 1])); lcase::<T>(s, "Vec4::up_point", || dv4(&V4::<T>::up_point()).to_vec(), b(&[0, 1, 0, 1]));
+    lcase::<T>(s, "Vec4::forward_point_lh", || dv4(&V4::<T>::forward_point_lh()).to_vec(), b(&[0, 0, 1, 1])); lcase::<T>(s, "Vec4::back_point_rh", || dv4(&V4::<T>::back_point_rh()).to_vec(), b(&[0, 0, 1, 1]));
+}
+fn sec_machine_types(s: &Section) {
+    s.require_classes(&["type:u8", "type:u16", "type:u32", "type:u64", "type:u128", "type:usize", "type:i8", "type:i16", "type:i32", "type:i64", "type:isize", "type:f32", "type:f64", "type:char",
+        "type:[u8; 3]", "type:[u64; 4]", "type:String", "type:Box<u16>", "type:Wrapping<u8>", "type:Wrapping<i64>",
+        "element-size:1", "element-size:2", "element-size:3", "element-size:4", "element-size:8", "element-size:16", "element-size:24", "element-size:32", "droppable-element"]);
+    lanes_unbounded::<u8>(s); lanes_unbounded::<u16>(s); lanes_unbounded::<u32>(s); lanes_unbounded::<u64>(s); lanes_unbounded::<u128>(s); lanes_unbounded::<usize>(s);
+    lanes_unbounded::<i8>(s); lanes_unbounded::<i16>(s); lanes_unbounded::<i32>(s); lanes_unbounded::<i64>(s); lanes_unbounded::<isize>(s);
+    lanes_unbounded::<f32>(s); lanes_unbounded::<f64>(s); lanes_unbounded::<char>(s); lanes_unbounded::<[u8; 3]>(s); lanes_unbounded::<[u64; 4]>(s);
+    lanes_unbounded::<String>(s); lanes_unbounded::<Box<u16>>(s);
+    lanes_unbounded::<Wrapping<u8>>(s); lanes_unbounded::<Wrapping<u16>>(s); lanes_unbounded::<Wrapping<u32>>(s); lanes_unbounded::<Wrapping<u64>>(s);
+    lanes_unbounded::<Wrapping<i8>>(s); lanes_unbounded::<Wrapping<i16>>(s); lanes_unbounded::<Wrapping<i32>>(s); lanes_unbounded::<Wrapping<i64>>(s);
+    lanes_copy!(s, u8, u16, u32, u64, u128, usize, i8, i16, i32, i64, isize, f32, f64, char, [u8; 3], [u64; 4]);
+    lanes_copy!(s, Wrapping<u8>, Wrapping<u16>, Wrapping<u32>, Wrapping<u64>, Wrapping<i8>, Wrapping<i16>, Wrapping<i32>, Wrapping<i64>);
+    lanes_numeric!(s, u8, u16, u32, u64, i8, i16, i32, i64, f32, f64);
+    lanes_numeric!(s, Wrapping<u8>, Wrapping<u16>, Wrapping<u32>, Wrapping<u64>, Wrapping<i8>, Wrapping<i16>, Wrapping<i32>, Wrapping<i64>);
+    units_nonneg::<u8>(s); units_nonneg::<u16>(s); units_nonneg::<u32>(s); units_nonneg::<u64>(s); units_nonneg::<i8>(s); units_nonneg::<i16>(s); units_nonneg::<i32>(s); units_nonneg::<i64>(s); units_nonneg::<f32>(s); units_nonneg::<f64>(s);
+    units_nonneg::<Wrapping<u8>>(s); units_nonneg::<Wrapping<u16>>(s); units_nonneg::<Wrapping<u32>>(s); units_nonneg::<Wrapping<u64>>(s); units_nonneg::<Wrapping<i8>>(s); units_nonneg::<Wrapping<i16>>(s); units_nonneg::<Wrapping<i32>>(s); units_nonneg::<Wrapping<i64>>(s);
+    // the lane tables themselves: pairwise distinct, none of them a padding value
+    fn distinct<T: Lane>(s: &Section, pads: &[T]) { for i in 0..32 { for j in 0..i { if T::lane(i).same(&T::lane(j)) { s.rep.machinery_error(format!("Lane<{}>: lanes {} and {} coincide", T::NAME, i, j)); } } for p in pads { if T::lane(i).same(p) { s.rep.machinery_error(format!("Lane<{}>: lane {} equals a padding value", T::NAME, i)); } } } }
+    macro_rules! dn { ($($t:ty),+) => { $( distinct::<$t>(s, &[<$t as CC>::zero_ref(), <$t as LaneNum>::one_ref(), <$t as CC>::full_ref()]); )+ } }
+    dn!(u8, u16, u32, u64, i8, i16, i32, i64, f32, f64, Wrapping<u8>, Wrapping<u16>, Wrapping<u32>, Wrapping<u64>, Wrapping<i8>, Wrapping<i16>, Wrapping<i32>, Wrapping<i64>);
+    distinct::<u128>(s, &[]); distinct::<usize>(s, &[]); distinct::<isize>(s, &[]); distinct::<char>(s, &[]); distinct::<[u8; 3]>(s, &[]); distinct::<[u64; 4]>(s, &[]); distinct::<String>(s, &[]); distinct::<Box<u16>>(s, &[]);
+}
+
+// =================================================================================================
+// 13. (second audit) per-type colour helpers on special values x equal-lane patterns
+// =================================================================================================
+/// `ColorComponent` is the one place where vek dispatches on the element type (18 hand-listed impls), so a slip can
+/// sit in one type only and be keyed on a value of that type.  The existing per-type alphabets of the wide integers
+/// are {0,1,2,mid,MAX-1,MAX} plus four fixed values.  Here every integer type gets all powers of two and their
+/// neighbours (2^k-1, 2^k, 2^k+1, MAX-2^k, and the negative ones for signed types), byte boundaries included, in
+/// every channel position and in every equal-lane pattern (v,f,f'), (f,v,f'), (f,f',v), (v,v,f), (v,f,v), (f,v,v), (v,v,v).
+fn colour_special_values<T: CC>(s: &Section) {
+    let tn = T::NAME;
+    s.class(&format!("type:{}", tn));
+    let (full, zero) = (T::full_ref(), T::zero_ref());
+    let fx = T::fixed();
+    let sp = T::special_values();
+    let inv_ok = T::special_values_invertible();
+    s.class_n("special-value", sp.len() as u64);
+    for &v in &sp {
+        let pats: [[T; 3]; 7] = [[v, fx[1], fx[2]], [fx[0], v, fx[2]], [fx[0], fx[1], v], [v, v, fx[2]], [v, fx[1], v], [fx[0], v, v], [v, v, v]];
+        for (pi, p) in pats.iter().enumerate() {
+            let (r, g, b) = (p[0], p[1], p[2]);
+            let wt = v.weight();
+            let inp = || json!({"r": jd(&r), "g": jd(&g), "b": jd(&b), "special": jd(&v)});
+            let c3 = Rgb { r, g, b };
+            let site = |f: &str| format!("Rgba<{}>::{}", tn, f);
+            chk(s, &site("new_opaque"), "wrong-value-on-special-value", &inp, s.call("new_opaque", inp, || drgba(Rgba::new_opaque(r, g, b))), &[r, g, b, full], true, wt);
+            chk(s, &site("new_transparent"), "wrong-value-on-special-value", &inp, s.call("new_transparent", inp, || drgba(Rgba::new_transparent(r, g, b))), &[r, g, b, zero], true, wt);
+            chk(s, &site("from_opaque"), "wrong-value-on-special-value", &inp, s.call("from_opaque", inp, || drgba(Rgba::from_opaque(c3))), &[r, g, b, full], true, wt);
+            chk(s, &site("from_transparent"), "wrong-value-on-special-value", &inp, s.call("from_transparent", inp, || drgba(Rgba::from_transparent(c3))), &[r, g, b, zero], true, wt);
+            chk(s, &format!("From<Rgb> for Rgba <{}>", tn), "wrong-value-on-special-value", &inp, s.call("From<Rgb>", inp, || drgba(Rgba::from(c3))), &[r, g, b, full], true, wt);
+            chk(s, &site("from_translucent"), "wrong-value-on-special-value", &inp, s.call("from_translucent", inp, || drgba(Rgba::from_translucent(c3, v))), &[r, g, b, v], true, wt);
+            if pi == 6 {
+                chk(s, &format!("Rgb<{}>::gray", tn), "wrong-value-on-special-value", &inp, s.call("gray", inp, || drgb(Rgb::gray(v))), &[v, v, v], true, wt);
+                chk(s, &format!("Rgb<{}>::grey", tn), "wrong-value-on-special-value", &inp, s.call("grey", inp, || drgb(Rgb::grey(v))), &[v, v, v], true, wt);
+                chk(s, &format!("Rgba<{}>::gray", tn), "wrong-value-on-special-value", &inp, s.call("gray", inp, || drgba(Rgba::gray(v))), &[v, v, v, full], true, wt);
+                chk(s, &format!("Rgba<{}>::grey", tn), "wrong-value-on-special-value", &inp, s.call("grey", inp, || drgba(Rgba::grey(v))), &[v, v, v, full], true, wt);
+            }
+            if inv_ok.contains(&v) {
+                // the other channels are fixed in-range values: full - c is defined for all three
+                let want = [r.inv_ref(), g.inv_ref(), b.inv_ref()];
+                for &a in &[v, fx[3]] {
+                    let got = s.call("inverted_rgb", inp, || { let i = Rgba { r, g, b, a }.inverted_rgb(); (drgba(i), drgba(i.inverted_rgb())) });
+                    s.eval(true);
+                    if let Some((g1, g2)) = got {
+                        if g1 != [want[0], want[1], want[2], a] { s.violation_w(&site("inverted_rgb"), "wrong-value-on-special-value", json!({"input": inp(), "alpha": jd(&a), "got": jd(&g1), "want": jd(&want)}), wt); }
+                        if g2 != [r, g, b, a] { s.violation_w(&site("inverted_rgb"), "not-an-involution-on-special-value", json!({"input": inp(), "alpha": jd(&a), "inverted_twice": jd(&g2)}), wt); }
+                    }
+                }
+                let got = s.call("inverted_rgb", inp, || { let i = c3.inverted_rgb(); (drgb(i), drgb(i.inverted_rgb())) });
+                s.eval(true);
+                if let Some((g1, g2)) = got {
+                    if g1 != want { s.violation_w(&format!("Rgb<{}>::inverted_rgb", tn), "wrong-value-on-special-value", json!({"input": inp(), "got": jd(&g1), "want": jd(&want)}), wt); }
+                    if g2 != [r, g, b] { s.violation_w(&format!("Rgb<{}>::inverted_rgb", tn), "not-an-involution-on-special-value", json!({"input": inp(), "inverted_twice": jd(&g2)}), wt); }
+                }
+            }
+        }
+    }
+}
+/// average_rgb on the special values (types on which it can be called), small fixed companions so that most sums are representable
+fn colour_special_average<T: Avg>(s: &Section) {
+    let tn = T::NAME;
+    s.class(&format!("type:{}", tn));
+    let small = [T::from(0u8), T::from(1u8), T::from(2u8), T::from(7u8)];
+    let sp = T::special_values();
+    for &v in &sp { for &p in &small { for &q in &small {
+        for (r, g, b) in [(v, p, q), (p, v, q), (p, q, v)] {
+            if !T::callable(r, g, b) { s.class("sum-not-representable (not called)"); continue; }
+            s.class("sum-representable");
+            let inp = || json!({"r": jd(&r), "g": jd(&g), "b": jd(&b)});
+            s.eval(true);
+            if let Some(got) = s.call("average_rgb", inp, || Rgb { r, g, b }.average_rgb()) { if let Some(w) = T::verdict(r, g, b, got) { s.violation_w(&format!("Rgb<{}>::average_rgb", tn), "not-sum-over-3-on-special-value", json!({"input": inp(), "got": jd(&got), "want": w}), v.weight()); } }
+            s.eval(true);
+            if let Some(got) = s.call("average_rgb", inp, || Rgba { r, g, b, a: v }.average_rgb()) { if let Some(w) = T::verdict(r, g, b, got) { s.violation_w(&format!("Rgba<{}>::average_rgb", tn), "not-sum-over-3-on-special-value", json!({"input": inp(), "got": jd(&got), "want": w}), v.weight()); } }
+        }
+    } } }
+}
+/// float channels: the constructors and gray/grey must transport every datum bit for bit (NaN payload, -0.0, subnormals, infinities)
+fn colour_float_transport<T: FloatCC>(s: &Section) {
+    let tn = T::NAME;
+    s.class(&format!("type:{}", tn));
+    let (full, zero) = (T::full_ref(), T::zero_ref());
+    let fx = T::fixed();
+    let mut vals = T::specials(); vals.extend(T::general(false).into_iter().step_by(17));
+    let eq = |a: &[T], b: &[T]| a.len() == b.len() && a.iter().zip(b).all(|(x, y)| x.same(*y));
+    for &v in &vals {
+        s.class("float-datum");
+        for p in [[v, fx[1], fx[2]], [fx[0], v, fx[2]], [fx[0], fx[1], v], [v, v, v]] {
+            let (r, g, b) = (p[0], p[1], p[2]);
+            let inp = || json!({"r": jd(&r), "g": jd(&g), "b": jd(&b)});
+            let c3 = Rgb { r, g, b };
+            let one = |name: &str, got: Option<[T; 4]>, want: [T; 4]| { s.eval(true); if let Some(g4) = got { if !eq(&g4, &want) { s.violation_w(&format!("Rgba<{}>::{}", tn, name), "datum-not-transported-bit-for-bit", json!({"input": inp(), "got": jd(&g4), "want": jd(&want)}), v.weight()); } } };
+            one("new_opaque", s.call("new_opaque", inp, || drgba(Rgba::new_opaque(r, g, b))), [r, g, b, full]);
+            one("new_transparent", s.call("new_transparent", inp, || drgba(Rgba::new_transparent(r, g, b))), [r, g, b, zero]);
+            one("from_opaque", s.call("from_opaque", inp, || drgba(Rgba::from_opaque(c3))), [r, g, b, full]);
+            one("from_transparent", s.call("from_transparent", inp, || drgba(Rgba::from_transparent(c3))), [r, g, b, zero]);
+            one("from_translucent", s.call("from_translucent", inp, || drgba(Rgba::from_translucent(c3, v))), [r, g, b, v]);
+            one("gray", s.call("gray", inp, || drgba(Rgba::gray(v))), [v, v, v, full]);
+            one("grey", s.call("grey", inp, || drgba(Rgba::grey(v))), [v, v, v, full]);
+            s.eval(true);
+            if let Some(g3) = s.call("gray", inp, || (drgb(Rgb::gray(v)), drgb(Rgb::grey(v)))) { if !eq(&g3.0, &[v, v, v]) || !eq(&g3.1, &[v, v, v]) { s.violation_w(&format!("Rgb<{}>::gray", tn), "datum-not-transported-bit-for-bit", json!({"input": inp(), "got": jd(&g3)}), v.weight()); } }
+        }
+    }
+}
+
 fn main() {
     let rep = Report::start("C19", "exploration");
     rep.section("From impls between vector kinds and sizes (Sym routing)",
@@ -1395,5 +2074,20 @@ fn main() {
         "the same 40 nullary constructors as above, instantiated at i8, i16, i32, i64, f32 and f64 and compared with the doc-comment coordinates converted from i8 (for floats -0.0 == 0.0 is accepted: the property fixes values, not the sign of zero); non-trivial: all",
         true, true, |s| { s.require_classes(&["type:i8", "type:i16", "type:i32", "type:i64", "type:f32", "type:f64"]);
             units_concrete::<i8>(s, "i8"); units_concrete::<i16>(s, "i16"); units_concrete::<i32>(s, "i32"); units_concrete::<i64>(s, "i64"); units_concrete::<f32>(s, "f32"); units_concrete::<f64>(s, "f64"); });
+    // ---------------------------------------------------------------- sections added by the second (adversarial) audit
+    rep.section("routing on equality patterns and special elements (free term algebra, shared generators)",
+        "every routing function of the property -- the 24 From rows, the 12 with_* setters, the 9 swizzles / projections, the 16 homogeneous constructors, the colour constructors (new_opaque/new_transparent/from_opaque/from_transparent/from_translucent, also from an Rgba), ARGB/BGRA/BGR, inverted_rgb (once and twice) and average_rgb structurally, shuffle_lo_hi and shuffled for all 256 masks, the 8 fixed lane helpers (Vec4 and Rgba), and the 12 matrix size conversions -- run on the free term algebra for EVERY EQUALITY PATTERN of its element positions: every set partition of the positions (restricted-growth strings), each block a fresh generator or one of the constants 0, 1, 255 = full() (n <= 5 positions: all patterns incl. the three constants; the two-operand lane helpers with 8 lanes: all 21147 patterns with the constant 0, thorough all 372939 with the three constants; shuffle_lo_hi x 256 masks: all 4140 partitions of the 8 lanes, thorough also the constants; Mat2 sources: all patterns incl. constants; Mat3 sources: all 21147 partitions of the 9 entries, thorough {0,1} + three generators; Mat4 sources: every assignment of two generators to the 16 entries, plus named border patterns -- identity padding, affine last row / column, zero / ones / uniform border, corner 0 / 1 -- with own generators in the kept block; thorough {own,0,1}^border); the result must be the plain routing (modulo x+0 = x, 1x = x, 0x = 0); this extends the parametricity argument from `impl<T>` to `T: PartialEq + Zero + One + ColorComponent`: such a function can only observe the equality pattern, so identical operands, palindromic / uniform / gray vectors and lanes equal to a constant are all presented; non-trivial: some positions equal or constant",
+        true, false, sec_equal_patterns);
+    rep.section("routing functions at machine element types (sizes 1..32 bytes, droppable elements)",
+        "every bound-free routing function (20 From rows, 11 setters, 9 swizzles / projections, interleave_0011/2233, shuffle_lo_hi_0101, shuffle_hi_lo_2323 for Vec4 and Rgba, ARGB/BGRA/BGR, from_translucent from Rgb / Rgba / Vec3 / tuple / array) at u8 u16 u32 u64 u128 usize i8 i16 i32 i64 isize f32 f64 char [u8;3] [u64;4] String Box<u16> and the 8 Wrapping<_> types (element sizes 1, 2, 3, 4, 8, 16, 24, 32 bytes; String and Box are not Copy and need dropping); the `T: Copy` ones (shuffle_lo_hi and shuffled for all 256 masks, shuffled_0101/2323/0022/1133, a single-index and an out-of-range mask, From<T> broadcast for all 13 vector types) and the shrinking matrix conversions in both layouts at the 24 Copy types; the Zero / One / ColorComponent-bounded ones (zero-padding From rows, From<Rgb> for Rgba, Vec2::with_w, the point / direction constructors, new_opaque/new_transparent/from_opaque/from_transparent, gray/grey, the growing matrix conversions in both layouts, and the 26 nullary unit / direction / point constructors that need no negation) at the 18 numeric types; inputs are pairwise distinct lane values different from 0, 1 and full (floats: -0.0, two NaN payloads, +-inf, subnormals, MAX among them; compared bit for bit), paddings from std constants; this closes the hole in the parametricity argument left by mem::size_of / align_of / needs_drop, which need no bound; non-trivial: all",
+        true, false, sec_machine_types);
+    rep.section("colour helpers per component type on special values x equal-lane patterns",
+        "ColorComponent is the only per-type dispatch in scope (18 hand-listed impls). For each of the 16 integer component types: every value of {0,1,2,3, 2^k-1, 2^k, 2^k+1, MAX-2^k, MAX-2^k+1 (1 <= k < bits), MAX-2..MAX, MAX/2-1..MAX/2+1, MAX/3, and for signed types MIN, MIN+1, MIN/2, -1,-2,-3, -2^k-1..-2^k+1} in each of the patterns (v,f,f'), (f,v,f'), (f,f',v), (v,v,f), (v,f,v), (f,v,v), (v,v,v) with f.. fixed in-range values: new_opaque, new_transparent, from_opaque, from_transparent, From<Rgb>, from_translucent(.., v), gray/grey (Rgb and Rgba) exactly; inverted_rgb (Rgb, and Rgba with alpha = v and a fixed alpha) == full - c from i128 arithmetic, alpha kept, twice == input (plain signed types: non-negative v only; Wrapping: all); average_rgb (the 7 callable integer types) on (v,p,q) in all three positions with p,q in {0,1,2,7}, Rgb and Rgba (alpha = v), == (r+g+b)/3 truncated where the sums are representable; f32 and f64: the constructors and gray/grey must transport -0.0, NaN, subnormals, +-inf, +-MAX and ordinary values bit for bit; non-trivial: all",
+        true, false, |s| { s.require_classes(&CC_TYPES); s.require_classes(&["special-value", "sum-representable", "float-datum"]);
+            colour_special_values::<u8>(s); colour_special_values::<u16>(s); colour_special_values::<u32>(s); colour_special_values::<u64>(s); colour_special_values::<i8>(s); colour_special_values::<i16>(s); colour_special_values::<i32>(s); colour_special_values::<i64>(s);
+            colour_special_values::<Wrapping<u8>>(s); colour_special_values::<Wrapping<u16>>(s); colour_special_values::<Wrapping<u32>>(s); colour_special_values::<Wrapping<u64>>(s);
+            colour_special_values::<Wrapping<i8>>(s); colour_special_values::<Wrapping<i16>>(s); colour_special_values::<Wrapping<i32>>(s); colour_special_values::<Wrapping<i64>>(s);
+            colour_special_average::<u8>(s); colour_special_average::<u16>(s); colour_special_average::<u32>(s); colour_special_average::<u64>(s); colour_special_average::<i16>(s); colour_special_average::<i32>(s); colour_special_average::<i64>(s);
+            colour_float_transport::<f32>(s); colour_float_transport::<f64>(s); });
     std::process::exit(rep.finish());
 }
